@@ -24,7 +24,7 @@ CHECKS = {
             "Trusts the wire codec, verif accessors, synctest quiescence; accusations at 2^32-1 are outside the statement and not generated.",
             "invariant monitor + post-accusation oracle on queue/dump", "DESIGN.md §3 C02"),
     "C06": ("E2 (timer object in virtual time) + E2-rig", "exploration",
-            "Runtime monitor in virtual time. Layer 1 drives the real suspicion timer with PRNG (offset, confirmer) scripts and compares the callback instant, count and Confirm results against the documented logarithmic schedule. Layer 2 lets a real node suspect a silent target on its own probes, checks that k/min/max equal the values derived from configuration and cluster size (not from anything else such as the node's health), delivers confirmations / a refutation followed by re-suspicion / a foreign death claim at scripted offsets and compares the NotifyLeave instant with the schedule and the [min,max] bounds.",
+            "Runtime monitor in virtual time. Layer 1 drives the real suspicion timer with PRNG (offset, confirmer) scripts and compares the callback instant, count and Confirm results against the documented logarithmic schedule. Layer 2 lets a real node suspect a silent target on its own probes, checks that k/min/max equal the values derived from configuration and the number of records the node holds (not from anything else such as the node's health; the node's size estimate must equal that number) after PRNG membership prehistories (a name re-joining from another address, come-and-go members, metadata updates, address conflicts), injects claims older than the held incarnation during both suspicions (they must not disturb the schedule), delivers confirmations / a refutation followed by re-suspicion / a foreign death claim at scripted offsets and compares the NotifyLeave instant with the schedule and the [min,max] bounds.",
             "Trusts synctest's fake clock (timers fire at exact instants), the oracle's re-implementation of the documented formula, the wire codec.",
             "virtual-time schedule oracle on timer object and on end-to-end leave instants", "DESIGN.md §3 C06"),
     "C18": ("E2-rig", "exploration",
@@ -36,11 +36,11 @@ CHECKS = {
             "Trusts the simulated network's latency bound (strict), the wire codec, synctest. Traffic attempted on an already shut down transport never reached the network and is ignored.",
             "absence monitors on wire tap, dumps, logs, events (virtual time)", "DESIGN.md §3 C04"),
     "C03": ("E1-simnet (fault-scenario engine)", "exploration",
-            "Runtime monitor of bounded progress in virtual time: crash / hung-process scenarios on real clusters under loss and config variation; an oracle over dump polls and event logs checks for every (survivor, crashed) pair that the leave event arrives within the configuration-derived bound after the last time the survivor could have heard the member alive; a log-based pace monitor checks that every failing probe is given up by its slowest awareness-scaled deadline; a tap-based schedule monitor checks in fault-free stable runs that per-peer probe counts differ by at most 2 and nobody probes itself, and in the crash runs a wire monitor checks that once a survivor has dropped a crashed member it sends it no further direct pings except relays requested by others; an in-process stall detector turns a wedged node (mutex-parked goroutines for minutes) into a violation. The unbounded 'eventually' is restated as this bound; nothing is claimed beyond the executions produced.",
+            "Runtime monitor of bounded progress in virtual time: crash / hung-process / host-unreachable (local send errors) / address-taken-over-by-another-name scenarios on real clusters under loss and config variation; an oracle over dump polls and event logs checks for every (survivor, crashed) pair that the leave event arrives within the configuration-derived bound after the last time the survivor could have heard the member alive; a log-based pace monitor checks that every failing probe is given up by its slowest awareness-scaled deadline; a tap-based schedule monitor checks in fault-free stable runs that per-peer probe counts differ by at most 2 and nobody probes itself, and in the crash runs a wire monitor checks that once a survivor has dropped a crashed member it sends it no further direct pings except relays requested by others; an in-process stall detector turns a wedged node (mutex-parked goroutines for minutes) into a violation. The unbounded 'eventually' is restated as this bound; nothing is claimed beyond the executions produced.",
             "Trusts synctest virtual time, the bound formula (loose by design), 200 ms poll granularity for alive-acceptance tracking (conservative direction), the real-time stall threshold of 90 s (only used to detect a wedged process).",
             "bounded-liveness oracle + pace/schedule monitors on tap and logs (virtual time)", "DESIGN.md §3 C03"),
     "C05": ("E1-simnet (fault-scenario engine)", "exploration",
-            "Runtime monitor of bounded progress in virtual time: PRNG fault scripts (loss, duplication, delay/reordering, partitions, one-way blocks, crashes, hung processes, same-address restarts, address take-over by another name, leaves, metadata updates) on real clusters; at T_stop the stated connectivity precondition is evaluated on Members(); judged scenarios must reach 'every live node lists exactly the live nodes with the owner's current metadata, suspects nobody live, lists nobody crashed or departed' within the settle bound (re-checked to 4x). A deterministic classifier names each failure; one named failure is a registered known finding (C05/bridge-only-suspect, reproduced by a scripted state-triggered scenario on every run), every other failure is a VIOLATION.",
+            "Runtime monitor of bounded progress in virtual time: PRNG fault scripts (loss, duplication, delay/reordering, partitions, one-way blocks, crashes, hung processes, unreachable hosts, same-address restarts incl. veteran ones that had raised their incarnation several times, address take-over by another name, leaves, metadata updates) on real clusters; at T_stop the stated connectivity precondition is evaluated on Members(); judged scenarios must reach 'every live node lists exactly the live nodes with the owner's current metadata, suspects nobody live, lists nobody crashed or departed' within the settle bound (re-checked to 4x). A deterministic classifier names each failure; one failure family is a registered known finding with four narrowly matched histories (C05/bridge-only-suspect - reproduced by a scripted state-triggered scenario on every run -, C05/bridge-lost-to-inflight-probe, C05/bridge-lost-to-stale-suspicion, C05/bridge-suspicion-never-heard), every other failure is a VIOLATION.",
             "Trusts synctest, the simulated network (datagrams drop/dup/delay/reorder; TCP dials retransmit the SYN with exponential backoff), the settle bound formula.",
             "bounded-convergence oracle over fault scripts (virtual time) with finding classifier", "DESIGN.md §3 C05"),
     "C07": ("E1-simnet + E2-rig (event monitor attached everywhere)", "exploration",
@@ -68,7 +68,7 @@ CHECKS = {
             "'Every code path' is a structural quantifier: this family shows it only for the send sites the coverage matrix proves were reached. Trusts stdlib AES-GCM and the oracle-side framing.",
             "transport-tap decryption oracle + canary scan with required send-site coverage", "DESIGN.md §3 C15"),
     "C13": ("E3-hostile-input (child process per batch, journal before injection)", "fault_enumeration",
-            "Fault enumeration over genuine traffic: every truncation, per-position byte edits, every single bit (items <= 256 B), type-byte sweeps, label-header variants, structurally hostile plaintexts and decompression bombs on the packet path; every cut point (FIN or stall), bit flips, over-cap declarations, bombs, 140 concurrent stalled push/pulls and a handler-stuck flood on the stream path - per configuration (label x encryption x verify-incoming x compression). Monitors: process survival (journal names the fatal input), digest equality for inputs the oracle-side codec finds undecodable, listener liveness probes, leak checks after TCPTimeout (connections, pending-probe records, push/pull counter, goroutines), bytes consumed after an over-cap header, handoff queue depth. ~230 k inputs in the quick tier; thorough enumerates all positions.",
+            "Fault enumeration over genuine traffic: every truncation, per-position byte edits, every single bit (items <= 256 B), type-byte sweeps, label-header variants, structurally hostile plaintexts and decompression bombs on the packet path; every cut point (FIN or stall), bit flips, over-cap declarations, bombs, 140 concurrent stalled push/pulls and a handler-stuck flood on the stream path - per configuration (label x encryption x verify-incoming x compression). Monitors: process survival (journal names the fatal input), digest equality for inputs the oracle-side codec finds undecodable, listener liveness probes, leak checks after TCPTimeout (connections, pending-probe records, push/pull counter, goroutines), bytes consumed after an over-cap header, handoff queue depth. A third part sends well-formed but odd membership data (version vectors of 0-12 entries, odd address lengths, states outside the enum, empty or own names) by push/pull and gossip to victims that are alone, have peers or have left, with the merge/alive delegates set: survival, continued service, no leaks. ~280 k inputs in the quick tier; thorough enumerates all positions.",
             "The enumeration is complete for single-bit/single-byte edits and truncations of the chosen genuine items in thorough, sampled by stride in quick; it says nothing about multi-byte edits beyond the listed generators. Trusts the oracle-side codec's notion of 'well-formed'.",
             "mutation enumeration with crash/effect/liveness/leak/cap monitors", "DESIGN.md §3 C13"),
     "C14": ("E3-hostile-input", "fault_enumeration",
@@ -76,15 +76,15 @@ CHECKS = {
             "Enumeration is complete over single-bit edits and truncations of the chosen items in thorough (strided over the ciphertext body in quick). Trusts stdlib AES-GCM and the oracle-side framing.",
             "effect-equivalence oracle over enumerated ciphertext modifications", "DESIGN.md §3 C14"),
     "C19": ("E2-rig (all peers are scripted fake peers)", "exploration",
-            "Runtime monitor in virtual time where the harness decides when every ack, nack, relayed ack and TCP-fallback reply arrives: prober oracle (answered <=> an ack with the probe's own number before the awareness-scaled deadline <=> not suspected), exact health-score accounting read at the instant each probe ends (-1 / +missed nacks / +1, clamped, unchanged when the ping could not even be sent), relay oracle on 60 indirect-ping requests per case (one forwarded ping with a non-pending number; one relayed ack under the requester's number iff the target answered within the probe timeout; one nack iff requested and no timely ack), handler cleanup after all deadlines.",
+            "Runtime monitor in virtual time where the harness decides when every ack, nack, relayed ack and TCP-fallback reply arrives: prober oracle (answered <=> an ack with the probe's own number before the awareness-scaled deadline <=> not suspected), exact health-score accounting read at the instant each probe ends (-1 / +missed nacks / +1, clamped, unchanged when the ping could not even be sent), relay oracle on 60 indirect-ping requests per case (one forwarded ping with a non-pending number; one relayed ack under the requester's number iff the target answered within the probe timeout; one nack iff requested and no timely ack - also when the relay's own ping could not be sent), handler cleanup after all deadlines.",
             "Scripted arrivals stay >= 5 ms from every deadline. Trusts synctest timing, the wire codec, the accessor for pending-probe records.",
             "scripted-arrival oracle on probe outcome, relay traffic and health accounting (virtual time)", "DESIGN.md §3 C19"),
     "C09": ("E1-simnet (cut-at-byte streams) + E2-rig (scripted peer)", "fault_enumeration",
-            "Fault enumeration of the join exchange: for each encryption x compression x label configuration and both directions the stream is cut after every byte offset (hard reset and black hole; strided in quick, every offset in thorough) and the digests of both real nodes, Join's result and duration, and the open connection ends are judged (incomplete inbound => unchanged; complete inbound => all or nothing). Plus runtime monitors for mutual listing at the instant Join returns (with the joiner's own filters), merge-delegate veto in both roles, random version matrices against an independent compatibility predicate, duplicate/self entries, and the hearsay rule (reported dead/suspect => listed, suspected, removed only by the receiver's own timer at >= the minimum timeout, also when the report is repeated while the suspicion is pending).",
+            "Fault enumeration of the join exchange: for each encryption x compression x label configuration and both directions the stream is cut after every byte offset (hard reset and black hole; strided in quick but always including the offsets around the start of the trailing user state, every offset in thorough) and the digests of both real nodes, Join's result and duration, and the open connection ends are judged (incomplete inbound => unchanged; complete inbound => all or nothing). Plus runtime monitors for mutual listing at the instant Join returns (with the joiner's own filters), merge-delegate veto in both roles, random version matrices after an in-place version upgrade of a member, against an independent compatibility predicate fed from the claims delivered, duplicate/self entries, and the hearsay rule (reported dead/suspect => listed, suspected, removed only by the receiver's own timer at >= the minimum timeout, also when the report is repeated while the suspicion is pending).",
             "Cut completeness is judged by the bytes really written on that connection (compressed state size varies with table order). Trusts the simulated stream (ordered, cut or reset at a byte offset), the wire codec.",
             "cut-at-every-byte enumeration with digest-equality oracle + exchange/hearsay monitors", "DESIGN.md §3 C09"),
     "C20": ("E2-rig stage scripts (virtual time) + E4 real sockets under -race", "exploration",
-            "Runtime monitor: (A) every public call at every lifecycle stage (created, joined, leaving, left, left-and-aged, shut down) alone and in PRNG combinations incl. overlapping Shutdown calls on a transport whose shutdown takes time, each call under recover with a virtual-time watchdog; panics (other than the documented Leave-after-Shutdown), blocked calls, overrun timeouts, a datagram accepted by the transport after a Shutdown call returned, and goroutines surviving Shutdown are violations; (B) loopback NetTransport clusters with millisecond intervals hammered from 6 goroutines while two Leave and two Shutdown calls race, under the Go race detector (every deduplicated report is a violation), with post-shutdown marked messages and port re-binding checks. A process-level stall detector reports mutex deadlocks.",
+            "Runtime monitor: (A) every public call at every lifecycle stage (created, joined, leaving, left, left-and-aged, shut down) alone and in PRNG combinations incl. overlapping Shutdown calls on a transport whose shutdown takes time, each call under recover with a virtual-time watchdog; panics (other than the documented Leave-after-Shutdown), blocked calls, overrun timeouts, a datagram accepted by the transport after a Shutdown call returned, and goroutines surviving Shutdown are violations; (B) loopback NetTransport clusters with millisecond intervals hammered from 6 goroutines while two Leave and two Shutdown calls race, under the Go race detector (every deduplicated report is a violation), with post-shutdown marked messages and port re-binding checks; (C) Shutdown during the TCP-fallback phase of a probe of a black-holed member: one awareness-scaled probe interval later no goroutine of that probe may remain (virtual time); (D) on real sockets a push/pull reply blocked by a peer that stopped reading must not block Leave(300 ms), Members or LocalNode (limit 8 s against a 40 s stream timeout). A process-level stall detector reports mutex deadlocks.",
             "Overlapping Leave calls cannot run in a synctest bubble (the second parks on a mutex whose holder waits on the fake clock) and are exercised only in part B. Real-time watchdogs are inconclusive, never violations. Race detection covers only interleavings that occurred.",
             "stage x call scripts with panic/blocked-call/leak/post-shutdown-traffic monitors + race detector on real sockets", "DESIGN.md §3 C20"),
 }
